@@ -190,6 +190,7 @@ func redisVariant(sg structGen, name string, mk func() Machine) structGen {
 
 var structGensRedis = []structGen{
 	redisVariant(structGens[0], "cms-redis", func() Machine { return &cmsRedis{} }),
+	redisVariant(structGens[2], "hll-redis", func() Machine { return &hllRedis{} }),
 }
 
 // pairedQueries interleaves the same queries on instances a and b (a first).
@@ -491,6 +492,8 @@ func monitorPersist(sg structGen, prop string) Monitor {
 			}
 			if ops[step].L[0].I() == opEquals && isOk(obs[step]) {
 				lastEq[ops[step].L[1].String()+ops[step].L[2].String()] = okPayload(obs[step]).U() != 0
+			} else if ops[step].L[0].I() != opEquals && !sg.isQuery(ops[step]) {
+				lastEq = map[string]bool{} // any other operation may change the state: verdicts are stale
 			}
 			if ops[step].L[0].I() >= 20 || !sg.isQuery(ops[step]) || !sameExceptInstance(ops[step], ops[step+1]) {
 				continue
